@@ -26,6 +26,9 @@ CHECKS = {
  "C16": dict(technique="static analysis: per-draw error-discipline rule over enumerated MIR paths (the draw's own Result must be branched on), definedness of nonce/salt/key fields in symbolic producer outputs, statics census, loop membership of retry draws",
    text="All 39 direct draw sites: each fallible draw's own Result is tested with an Err exit before the path continues; nonce/salt/ephemeral/key positions of every producer output are full-width RNG terms with no zero-initialised or caller-controlled bytes; no static/thread_local exists in the lib crates (no caching of draws); retrying key generators redraw inside the loop. Statistical uniqueness and RNG use inside dependencies are out of reach.",
    ref="DESIGN.md §4 C16"),
+ "C17": dict(technique="static analysis: rustc Freeze facts for every key type, public-API census for &mut keys, unsafe Send/Sync impl census, pointer-provenance rule for FFI arguments vs binding mutability, const->mut cast scan, statics census",
+   text="Type-level argument: all key types are Freeze, no public API takes a key by &mut, the only unsafe Send/Sync impls are the two aws-lc key wrappers whose &self methods pass self-derived pointers only to *const FFI parameters with no const->mut cast, and no static mut / interior-mutable static / thread_local exists — so neither interleavings nor failed operations can change a key. Thread-safety of the C libraries for const access is their contract.",
+   ref="DESIGN.md §4 C17"),
  "C08": dict(technique="static analysis: exact-length closure and validator must-pass rules over enumerated decode paths, symbolic encode∘decode composition with a table of inverse library pairs, component-wise Clone check, public-key derivation terms",
    text="For every HasKey impl (6 backends x 5 kinds): decode is closed by the kind's exact width, encode(decode(b)) = b symbolically (no canonicalising/truncating decoder), each success path passes the key type's validating constructor, Ed25519 secret decoders re-derive and compare the public half, manual Clone impls are component-wise, public_key() is the scheme's public key of that secret and equals the embedded half. One known finding (D7: libsodium public keys are length-checked only) is listed in known_findings.json.",
    ref="DESIGN.md §4 C08"),
